@@ -329,6 +329,18 @@ pub fn run(args: &Args, rep: &mut Report) {
             break;
         }
         rep.begin(idx, "persist-history");
-        history(args, rep, idx);
+        // a panic inside the crate (e.g. a restored VFS that cannot mount any more) is a finding about the
+        // property; a panic of the harness itself is not
+        if let Err(p) = vkit::xport::guarded(|| history(args, &mut *rep, idx)) {
+            let loc = p.rsplit(" @ ").next().unwrap_or("");
+            let in_crate = loc.starts_with('/') && loc.contains("/src/") && !loc.contains("/harness/") && !loc.contains("/.cargo/") && !loc.contains("/rustc/");
+            if in_crate {
+                let file = loc.rsplit("/src/").next().unwrap_or(loc);
+                rep.violation(&format!("C19:crate-panic:{}", file.split(':').next().unwrap_or("")), idx, J::obj(vec![("why", J::s(format!("the crate panicked while the saved/restored history was replayed: {}", p)))]));
+            } else {
+                eprintln!("HARNESS-PANIC: {}", p);
+                std::process::exit(101);
+            }
+        }
     }
 }
